@@ -633,6 +633,24 @@ func (h *hist) directed(kind int) {
 		h.setParams(&p)
 		h.opBlock()
 		h.opBlock()
+	case 5: // every pool at once: positions on both sides of every pool, two epoch boundaries, everything closed
+		// again — a lookup of "the positions of pool X" that also returns those of a pool whose symbol
+		// merely starts with X (or of X + the start of an address) shows here as custody moved on the wrong pool
+		n := 0
+		for _, d := range w.denoms[1:] {
+			h.doOpen(h.traders[n%3], "rowan", d, amt(d, true), margintypes.Position_LONG, sdk.NewDec(2))
+			h.doOpen(h.traders[(n+1)%3], d, "rowan", amt(d, false), margintypes.Position_LONG, sdk.MustNewDecFromStr("1.5"))
+			n++
+		}
+		for !h.opBlock() {
+		}
+		for !h.opBlock() {
+		}
+		for _, m := range k.GetAllMTPS(w.ctx) {
+			a, _ := sdk.AccAddressFromBech32(m.Address)
+			h.doClose(a, m.Id)
+		}
+		h.opBlock()
 	}
 	h.out.Hist[fmt.Sprintf("directed.%d", kind)]++
 }
@@ -727,16 +745,37 @@ func (h *hist) opBlock() bool {
 	return boundary
 }
 
+var adversarialSymbols = []string{"cethx", "cethsif1", "cusd", "ceth/rowan", "ceth/x", "cETH", "CETH", "ceths"}
+
 func init() {
 	families["margin"] = func(rng *Rng, n int, out *Out, replay string) {
-		w := NewWorld([]string{"rowan", "cusdc", "ceth"})
+		// pool symbols chosen adversarially for composite store keys: proper byte prefixes of one another
+		// (cusd/cusdc, ceth/cethx), a symbol that is a prefix of <symbol><start of a bech32 address>
+		// (ceth + "sif1…" / cethsif1), the separators the clp and margin keys use (_ and /), case variants
+		all := append([]string{"rowan", "cusdc", "ceth"}, adversarialSymbols...)
+		w := NewWorld(all)
 		base := w.ctx
 		nhist := 0
 		for out.N < n {
 			w.ctx, _ = base.CacheContext()
+			// every history: cusdc and ceth plus 1-3 of the adversarial symbols (store order of the pools varies with them)
+			w.denoms = []string{"rowan", "cusdc", "ceth"}
+			extra := 1 + rng.Intn(3)
+			if nhist == 5 {
+				extra = len(adversarialSymbols)
+			}
+			if nhist < 5 {
+				extra = 0
+			}
+			perm := append([]string{}, adversarialSymbols...)
+			for i := 0; i < extra; i++ {
+				j := i + rng.Intn(len(perm)-i)
+				perm[i], perm[j] = perm[j], perm[i]
+				w.denoms = append(w.denoms, perm[i])
+			}
 			h := &hist{w: w, out: out, rng: rng, fixedPools: nhist == 4}
 			h.setup()
-			if nhist < 5 {
+			if nhist < 6 {
 				h.directed(nhist)
 				nhist++
 				continue
